@@ -172,6 +172,25 @@ def run(ctx):
         ctx.check(not probs and n >= 2, "R14-one-slot", h.key, h, "%d paths: writes exactly one slot iff it returns true" % n,
                   "%s: %s" % (h.name, "; ".join(sorted(set(probs))[:3])))
 
+    # ---- R14-full-scan: a helper may give up (return false) only after the iterator over the bucket is exhausted ------
+    for h in (wtb, hib, rfb):
+        pe = PathEnumerator(h, prog, ctx.summ, max_back=1)
+        heads = h.loop_heads()
+        body = h.natural_loop(heads[0]) if len(heads) == 1 else set()
+        probs = []
+        nf = 0
+        for p in pe.paths():
+            if p.exit_kind != "return" or p.ret != "false":
+                continue
+            nf += 1
+            loop_branches = [e for e in p.events if e["kind"] == "branch" and e["bb"] in body]
+            last = loop_branches[-1] if loop_branches else None
+            exhausted = last is not None and last.get("cond") is not None and last["cond"][0] == "call" and last["cond"][1] == "discriminant" and last["value"] == 0
+            if not exhausted:
+                probs.append("returns false after leaving the slot loop early (not every slot of the bucket was examined)")
+        ctx.check(len(heads) == 1 and nf >= 1 and not probs, "R14-full-scan", h.key, h, "`false` only after all bucketsize slots were examined (%d such paths)" % nf,
+                  "; ".join(sorted(set(probs))) or "helper has %d loops / no false-returning path" % len(heads))
+
     # ---- R14-siblings: slot range and tested/written slot -------------------------------------
     shapes = {}
     for h in (wtb, hib, rfb):
